@@ -118,6 +118,7 @@ def run_property(prop, tier="quick", repo="/repo", seed=0, update_baseline=False
         print("ERROR property=%s no units generated" % prop)
         return 3
     outs = run_units(units)
+    obl_filter = getattr(mod, "OBLIGATION_FILTER", None)
     # ---- merge
     by_name = {}
     errors = []
@@ -133,6 +134,8 @@ def run_property(prop, tier="quick", repo="/repo", seed=0, update_baseline=False
         for r in o["results"]:
             if not VC.in_scope(r[0], prop):
                 continue        # clause scoped to another property (Contract.scope)
+            if obl_filter is not None and not obl_filter(r[0]):
+                continue        # the property reads only its own clauses off the shared contracts
             by_name.setdefault(r[0], []).append(r)
             unit_of[r[0]] = o["unit"]
         functions.update(o["functions"])
